@@ -257,7 +257,7 @@ def instances(tier, seed):
     for form in GROUPINGS:
         out.append(Instance('grouped/%s' % form, grouped(form, None)))
     out.append(Instance('grouped/two-groups/join=and_', grouped('two-groups', 'and_')))
-    for lo, hi in (BOXES[:2] if q else BOXES):
+    for lo, hi in (BOXES[:3] if q else BOXES):
         out.append(Instance('bounds/%s..%s' % (lo, hi), bounds(lo, hi)))
     out.append(Instance('fp-lemma/strictness', fp_lemma(), qtimeout=250000))
     return out
